@@ -1155,7 +1155,10 @@ fn format_initializer_inner(
     context: &mut FormatContext,
 ) -> Result<(), FormatError> {
     match init {
-        ast::Initializer::Expression(expr) => format_expression(expr, output, context)?,
+        ast::Initializer::Expression(expr) => {
+            // A comma expression must be parenthesised or it reads back as further declarators / elements
+            format_subexpression(expr, 17, OperatorSide::CommaList, output, context)?
+        }
         ast::Initializer::Aggregate(exprs) => {
             output.push_str("{ ");
             let (head, tail) = exprs.split_first().unwrap();
